@@ -14,6 +14,7 @@ from .interface import Interface
 from .interface import InvalidScheduleError
 from acnportal.algorithms import BaseAlgorithm
 from .base import BaseSimObj
+from . import _verif
 
 
 class Simulator(BaseSimObj):
@@ -113,9 +114,11 @@ class Simulator(BaseSimObj):
         # interrupted (e.g. the scheduler raised) in the last period; finish that period.
         while not self.event_queue.empty() or self._resolve:
             current_events = self.event_queue.get_current_events(self._iteration)
+            _verif.emit("loop", self, events=current_events)
             for e in current_events:
                 self.event_history.append(e)
                 self._process_event(e)
+                _verif.emit("proc", self, event=e)
             if (
                 self._resolve
                 or self.max_recompute is not None
@@ -126,11 +129,13 @@ class Simulator(BaseSimObj):
                 )
             ):
                 new_schedule = self.scheduler.run()
+                _verif.emit("sched", self, schedule=new_schedule)
                 self._update_schedules(new_schedule)
                 if self.schedule_history is not None:
                     self.schedule_history[self._iteration] = new_schedule
                 self._last_schedule_update = self._iteration
                 self._resolve = False
+                _verif.emit("update", self, schedule=new_schedule)
             if not self.event_queue.empty():
                 width_increase = self.event_queue.get_last_timestamp() + 1
             else:
@@ -140,7 +145,9 @@ class Simulator(BaseSimObj):
             self.network.update_pilots(self.pilot_signals, self._iteration, self.period)
             self._store_actual_charging_rates()
             self.network.post_charging_update()
+            _verif.emit("apply", self)
             self._iteration = self._iteration + 1
+        _verif.emit("done", self)
 
     def step(self, new_schedule):
         """ Step the simulation until the next schedule recompute is
@@ -172,6 +179,7 @@ class Simulator(BaseSimObj):
                 self.schedule_history[self._iteration] = new_schedule
             self._last_schedule_update = self._iteration
             self._resolve = False
+            _verif.emit("step_update", self, schedule=new_schedule)
             if self.event_queue.get_last_timestamp() is not None:
                 width_increase = max(
                     self.event_queue.get_last_timestamp() + 1, self._iteration + 1
@@ -183,11 +191,15 @@ class Simulator(BaseSimObj):
             self.network.update_pilots(self.pilot_signals, self._iteration, self.period)
             self._store_actual_charging_rates()
             self.network.post_charging_update()
+            _verif.emit("step_apply", self)
             self._iteration = self._iteration + 1
             current_events = self.event_queue.get_current_events(self._iteration)
+            _verif.emit("step_loop", self, events=current_events)
             for e in current_events:
                 self.event_history.append(e)
                 self._process_event(e)
+                _verif.emit("step_proc", self, event=e)
+        _verif.emit("step_return", self)
         return self.event_queue.empty()
 
     def get_active_evs(self):
